@@ -2150,6 +2150,11 @@ class StrProfile(Translator):
             return "P"
         return super().path_expr(e)
 
+    def default_of(self, ty):
+        if ty == "Self" and "default" in self.fns:
+            return "zerosBA N"        # `Self::default()`: the translated `default` is `zerosBA N` (checked by its own bridge)
+        return super().default_of(ty)
+
     def cast_expr(self, e, hoist):
         ty = e.ty.replace(" ", "")
         v = self.ex(e.e, hoist)
@@ -2273,6 +2278,15 @@ class StrProfile(Translator):
         if e.kind == "mcall" and self.is_self(e.recv) and e.name in self.fns:
             self.mcall_expr(e, True)
             return True
+        # `x.copy_from_str(s)` on a local `x: Self` under construction: the callee's new value replaces `x`
+        if e.kind == "mcall" and e.recv.kind == "path" and len(e.recv.path) == 1 and e.recv.path[0] in getattr(self, "selfvals", ()) \
+                and e.name in self.fns and self.fns[e.name].fn.self_kind == "mut" and self.fns[e.name].fn.ret is None:
+            x = self.lookup(e.recv.path[0])
+            args = " ".join(self.atom(self.ex(a, True)) for a in e.args)
+            t = self.fresh()
+            self.em.w(f"let {t} ← {self.fns[e.name].lean_name} {self.PRE_ARGS} {x} {args}")
+            self.em.w(f"{x} := {t}")
+            return True
         if e.kind == "try":
             inner = e.e
             if inner.kind == "call" and inner.f.kind == "path" and inner.f.path[-1] == "from_utf8":
@@ -2298,6 +2312,12 @@ class StrProfile(Translator):
         if s.pat.kind == "pident" and s.init is not None and s.pat.mut:
             v = self.ex(s.init, hoist=True)
             name = s.pat.name
+            init = s.init
+            if init.kind == "call" and init.f.kind == "path" and init.f.path == ["Self", "default"]:
+                # a value of type Self under construction (methods may be called on it)
+                if not hasattr(self, "selfvals"):
+                    self.selfvals = set()
+                self.selfvals.add(name)
             used_as_place = name in self.muts or True
             self.em.w(f"let mut {self.bind(name, True)} := {v}")
             return
